@@ -433,7 +433,6 @@ def chunkedLoop (cfg : Cfg) : Nat → PState → Bytes → List Ev → PRes × L
         | some size =>
           let chunk := chunk.drop (pos + sepLen cfg.lax)
           if size == 0 then
-            let chunk := if cfg.lax then (match chunk with | 13 :: t => t | c => c) else chunk
             -- falls through to the trailers branch in the same iteration
             trailersStep cfg fuel { p with cstate := .trailers } chunk evs
           else
